@@ -281,6 +281,7 @@ def h_tworun() -> bool:
         bd = pb.PEL(pb.SRC(ascii=b"BD8DE510", words=(0x020000F0, w, 2, 3, 4, 5, 6, 7)))
         y, x = (bc, bd) if case == "osrc-BC-BD" else (bd, bc)
         imp.present = lambda n: bool(sym_not(str_eq(n, "srcparsers.bsrc.bsrc")))      # no hostboot SRC parser installed
+        imp.passthrough = {"srcparsers.osrc.osrc": osrc}                               # the real BMC SRC dispatcher
     elif case == "compid-lazy":
         # the component-name table is loaded lazily on first use: the first log of the process is shown like any later one
         cb = sym_bytes("c", 1)
